@@ -177,9 +177,10 @@ extern "C" void harness_visit_k()
     }
 #pragma clang loop unroll(full)
     for (unsigned k = 0; k < SZ; ++k)
-        if (k == g_J && g_D[0][XID] < top)
+        if (k == g_J && g_D[0][XID] <= top)
         {
-            VT_CHECK(count_node(nq, &g_ch[k].n) == 1, "k-nearest: a subtree holding an element closer than the k-th neighbour kept is never pruned");
+            // (not farther, ties included: remove() relies on reaching the element that IS the key among equal-distance ones)
+            VT_CHECK(count_node(nq, &g_ch[k].n) == 1, "k-nearest: a subtree holding an element not farther than the k-th neighbour kept is never pruned");
             if (full) vt_cover("a subtree element would improve a full queue");
         }
     if (nq.c.size() < SZ) vt_cover("a subtree was pruned (k)");
